@@ -23,6 +23,8 @@ use cairo_lang_starknet_classes::contract_class::{
 use cairo_lang_utils::CloneableDatabase;
 use itertools::{Itertools, chain};
 use rayon::iter::{IntoParallelRefIterator, ParallelIterator};
+#[cfg(cairo_verif)]
+use cairo_lang_utils::verif_par as rayon;
 use salsa::Database;
 
 use crate::abi::AbiBuilder;
